@@ -239,17 +239,69 @@ static int Record(const vh::Args& args) {
   static const char* names[] = { "X1", "X2", "D1", "D2", "D3", "F1", "S1", "C1", "X9", "A1" };
   static const char* aliases[] = { "X1", "X2", "X3", "D1", "D2", "D3", "D4", "F1", "F2", "S1", "C1", "A1", "Q7", "D01" };
   const bool extract = args.num("extract", 0) != 0;
+  const bool equate = args.num("equate", 0) != 0;                      // C12: equations on the live schema, syntheses with a kept copy
+  auto typeStr = [](const RSForm& f, EntityUID u) { if (!f.Contains(u)) return std::string{}; const auto& p = f.GetParse(u);
+    return p.exprType.has_value() ? (std::holds_alternative<rslang::LogicT>(*p.exprType) ? std::string("LOGIC") : AsciiType(std::get<rslang::Typification>(*p.exprType).ToString())) : std::string{}; };
   const int policy = static_cast<int>(args.num("seed", 1) % 3);       // identifier order: ascending / descending / scattered
   for (long t = 0; t < traces; ++t) {
     out << json{ {"e", "Reset"} }.dump() << std::endl; ++events;
     auto form = std::make_unique<RSForm>(); int counter = 0;
+    auto snap = std::make_unique<RSForm>();
     auto fresh = [&]() { ++counter; return static_cast<EntityUID>(policy == 0 ? counter : policy == 1 ? 1000 - counter : (counter * 37) % 997 + 1); };
     auto pick = [&]() -> EntityUID { std::vector<EntityUID> v; for (auto u : form->List()) v.push_back(u); if (v.empty() || g() % 12 == 0) return static_cast<EntityUID>(5000); return v[g() % v.size()]; };
     for (long st = 0; st < steps; ++st) {
-      json ev, pendingExt; const int w = static_cast<int>(g() % 118);   // 97..117: text operations
+      json ev, pendingExt, pendingSyn, pendingEq; const int w = static_cast<int>(g() % 118);   // 97..117: text operations
       const int n = static_cast<int>(form->Core().size());
       g_uids.clear();
-      if (w < 22 && n < maxCst) { const std::string k = kinds[g() % 8]; Def d = MakeDef(k == std::string("base") || k == std::string("constant") ? (g() % 6 ? 0 : 1) : static_cast<int>(g() % 10), names[g() % 10], names[g() % 10]);
+      if (equate && n > 0 && g() % 100 < 16) {
+        const int which = static_cast<int>(g() % 6);
+        std::vector<EntityUID> ids; for (auto u : form->List()) ids.push_back(u);
+        // a partner for k: usually one with the same typification (so that tables are admissible often enough), else any
+        auto partner = [&](const RSForm& where, EntityUID k) -> EntityUID { std::vector<EntityUID> same, all; const std::string t = typeStr(*form, k);
+          for (auto u : where.List()) { if (&where == form.get() && u == k) continue; all.push_back(u); if (!t.empty() && typeStr(where, u) == t) same.push_back(u); }
+          if (!same.empty() && g() % 4) return same[g() % same.size()]; if (all.empty()) return static_cast<EntityUID>(5000); return all[g() % all.size()]; };
+        if (which == 0) { snap = std::make_unique<RSForm>(*form); ev = { {"e", "Snapshot"} }; }
+        else if (which <= 2) {
+          ops::EquationOptions table; json tj;
+          const bool wantAdmissible = g() % 4 != 0;
+          for (int attempt = 0; attempt < 40; ++attempt) {
+            table = ops::EquationOptions{}; tj = json::array(); std::set<EntityUID> ks, vs;
+            const int pairs = static_cast<int>(g() % 3);
+            for (int i = 0; i < pairs; ++i) { const EntityUID k = ids[g() % ids.size()]; const EntityUID v = (snap->Contains(k) && g() % 2) ? k : partner(*snap, k);
+              if (ks.count(k) || vs.count(v)) continue; ks.insert(k); vs.insert(v); table.Insert(k, v); tj.push_back({ {"k", k}, {"v", v} }); }
+            if (!wantAdmissible || tj.empty()) break;
+            g_uids.clear(); if (ops::BinarySynthes{ *form, *snap, table }.IsCorrectlyDefined()) break;
+          }
+          json fr = json::array(); g_uids.clear(); for (size_t i = 0; i < snap->Core().size() + 2; ++i) { const auto f = fresh(); g_uids.push_back(f); fr.push_back(f); }
+          json x = { {"table", tj}, {"fresh", fr}, {"defined", false}, {"items", json::array()}, {"t1", json::array()}, {"t2", json::array()} };
+          { ops::BinarySynthes op{ *form, *snap, table }; const bool defined = op.IsCorrectlyDefined(); auto res = op.Execute();
+            x["defined"] = defined && res != nullptr; x["agree"] = defined == (res != nullptr);
+            if (res) { for (auto u : res->List()) x["items"].push_back({ {"uid", u}, {"alias", res->GetRS(u).alias}, {"kind", KindName(res->GetRS(u).type)}, {"ok", res->GetParse(u).status == semantic::ParsingStatus::VERIFIED}, {"type", typeStr(*res, u)} });
+              for (const auto& [a, b] : op.Translations().at(0)) x["t1"].push_back({ {"u", a}, {"img", b} });
+              for (const auto& [a, b] : op.Translations().at(1)) x["t2"].push_back({ {"u", a}, {"img", b} }); } }
+          g_uids.clear();
+          ev = { {"e", "Synth"} }; pendingSyn = x; }
+        else {
+          // candidate tables are drawn until one is admissible (most random tables are not); every fourth time the first draw is used as it is
+          ops::EquationOptions table; json tj;
+          const bool wantAdmissible = g() % 4 != 0;
+          for (int attempt = 0; attempt < 40; ++attempt) {
+            table = ops::EquationOptions{}; tj = json::array(); std::set<EntityUID> ks, vs;
+            const int pairs = 1 + (g() % 4 == 0);
+            for (int i = 0; i < pairs; ++i) { const EntityUID k = g() % 15 ? ids[g() % ids.size()] : static_cast<EntityUID>(5000); const EntityUID v = g() % 15 ? partner(*form, k) : k;
+              if (ks.count(k) || vs.count(v)) continue; ks.insert(k); vs.insert(v);
+              const int m = static_cast<int>(g() % 4); const char* mode = m <= 1 ? "hier" : m == 2 ? "del" : "new";
+              table.Insert(k, v, m <= 1 ? ops::Equation{} : m == 2 ? ops::Equation{ ops::Equation::Mode::keepDel, "" } : ops::Equation{ ops::Equation::Mode::createNew, "renamed" });
+              tj.push_back({ {"k", k}, {"v", v}, {"m", mode} }); }
+            if (tj.empty()) { const EntityUID k = ids[0]; const EntityUID v = partner(*form, k); table.Insert(k, v, ops::Equation{}); tj.push_back({ {"k", k}, {"v", v}, {"m", "hier"} }); }
+            if (!wantAdmissible || form->Ops().IsEquatable(table)) break;
+          }
+          const bool equatable = form->Ops().IsEquatable(table);
+          const auto tr = form->Ops().Equate(table);
+          json x = { {"accepted", tr.has_value()}, {"equatable", equatable}, {"tr", json::array()} };
+          if (tr.has_value()) for (auto u : ids) x["tr"].push_back({ {"u", u}, {"img", tr->ContainsKey(u) ? (*tr)(u) : u} });
+          ev = { {"e", "Equate"}, {"table", tj} }; pendingEq = x; } }
+      else if (w < 22 && n < maxCst) { const std::string k = kinds[g() % 8]; Def d = MakeDef(k == std::string("base") || k == std::string("constant") ? (g() % 6 ? 0 : 1) : static_cast<int>(g() % 10), names[g() % 10], names[g() % 10]);
         const auto f = fresh(); g_uids.push_back(f); const auto got = form->Emplace(KindOf(k), d.text);
         ev = { {"e", "Emplace"}, {"k", k}, {"def", d.tree}, {"fresh", got} }; }
       else if (w < 40) { const auto u = pick(); Def d = MakeDef(static_cast<int>(g() % 10), names[g() % 10], names[g() % 10]);
@@ -290,6 +342,8 @@ static int Record(const vh::Args& args) {
         else { json wds = json::array(); for (auto& a : q) wds.push_back(a["s"]); const bool r = form->SetConventionFor(u, Words(wds)); ev = { {"e", "SetConvention"}, {"u", u}, {"w", wds}, {"res", r} }; } }
       ev["obs"] = ObsOf(*form);
       if (!pendingExt.is_null()) { ev["obs"]["ext"] = pendingExt; pendingExt = json(); }
+      if (!pendingSyn.is_null()) ev["obs"]["syn"] = pendingSyn;
+      if (!pendingEq.is_null()) ev["obs"]["eq"] = pendingEq;
       ev["obs"]["convs"] = json::array(); 
       out << ev.dump() << std::endl; ++events;
     }
